@@ -314,6 +314,26 @@ func (w *world) hook(side int, ps erpc.PreSession, via string) *erpc.Status {
 	return nil
 }
 
+var portSeq int
+
+// pickPort chooses the listen port. Port 0 is avoided on purpose: for a port-0 listener eRPC's graceful-restart
+// bookkeeping (graceful.go popParentLaddr) re-uses the actual address of an EARLIER listener of this process, which
+// by now may belong to somebody's outgoing connection - the bind fails and ListenAndServe ends the process through
+// Fatalf. Ports are taken from a per-process block below the ephemeral range and probed first.
+func pickPort() uint16 {
+	base := 20000 + (os.Getpid()%400)*20
+	for i := 0; i < 20; i++ {
+		p := base + portSeq%20
+		portSeq++
+		l, err := net.Listen("tcp", fmt.Sprintf("127.0.0.1:%d", p))
+		if err == nil {
+			l.Close()
+			return uint16(p)
+		}
+	}
+	return 0
+}
+
 func newWorld(path string) *world {
 	w := &world{path: path, tcp: path == "listener", parked: make(chan *sinfo, 64), useStamp: true}
 	for side := 0; side < 2; side++ {
@@ -321,6 +341,9 @@ func newWorld(path string) *world {
 		cfg := erpc.PeerConfig{}
 		if w.tcp {
 			cfg.LocalIP = "127.0.0.1"
+			if side == sideS {
+				cfg.ListenPort = pickPort()
+			}
 		}
 		p := erpc.NewPeer(cfg, rec)
 		w.callRoute = p.RouteCallFunc(hCall)
@@ -1926,9 +1949,11 @@ func runScript(w *world, sd scriptDesc) (vs []viol, inconcl string) {
 		if !tr.WaitArrived(trapWait) {
 			return nil, infeasible("ServeConn did not reach hub.betweenLoadAndStore")
 		}
-		if !l.b.established() || !l.b.sess.Health() {
-			tr.Release()
-			return nil, infeasible("the accepted session is not established at the index insert")
+		// In the pinned tree the read loop is already running here. If an implementation inserts before it starts
+		// the read loop, the disconnect simply happens before the session is established: the script still ends in
+		// a state the clauses can judge.
+		if l.b.established() && l.b.sess.Health() {
+			core.Add("accept_insert_after_read_loop_start_observed", 1)
 		}
 		disconnect(l, l.a)
 		if !w.quiesce() {
